@@ -66,8 +66,8 @@ W_RECURSION = {'steps': [P(['def', 'A$', ['X$'], ['fn', 'A$', [cat(sv('X$'), lit
                          P(['let', sv('Q!'), FRE_S])]}
 # console INPUT: the typed strings must stay rooted until all variables have been assigned (creating the first
 # variable collects garbage when memory is nearly exhausted)
-def input_case(k, n, words, names=('X$', 'Y$', 'C$')):
-    lvs = [sv(nm) for nm in names[:len(words)]]
+def input_case(k, n, words, names=('X$', 'Y$', 'C$'), lvs=None):
+    lvs = lvs or [sv(nm) for nm in names[:len(words)]]
     return {'steps': [D(['clear', k]), D(['let', sv('B$'), lit('x')]), D(['let', sv('A$'), lit('y')])] +
             [P(['let', sv('A$'), cat(sv('B$'), sv('A$'), sv('B$'))]) for _ in range(n)] +
             [P(['let', sv('A$'), lit('')]), P(['input', lvs, list(words)])] +
@@ -78,7 +78,11 @@ W_INPUT = {'steps': [D(['clear', 39]), D(['let', sv('B$'), lit('x')]), D(['let',
                      P(['let', sv('A$'), cat(sv('B$'), sv('C$'), sv('B$'), sv('C$'), sv('B$'))]),
                      P(['let', sv('A$'), lit('')]), P(['input', [sv('X$'), sv('Y$')], ['abcdefgh', 'ijkl']]),
                      P(['let', sv('A$'), sv('Y$')]), P(['let', sv('Q!'), FRE_S]), P(['let', sv('A$'), sv('Y$')])]}
-WITNESSES = [W_D16, W_D15, W_D10A, W_D10B, W_D10C, W_D10D_ALIAS, W_D10D_OVERFLOW, W_RECURSION, W_INPUT]
+# D10e: INPUT (also READ, LINE INPUT, INPUT#) into an element of an array that does not exist yet: Arrays.set took the
+# value's pointer before view_buffer dimensioned the array; when that collected garbage the element got the old address
+W_D10E = {'steps': [D(['clear', 110]), P(['let', sv('A$'), cat(lit('q' * 60), sv('B$'))]), P(['let', sv('A$'), lit('')]),
+                    P(['input', [['av', 'S$', 5]], ['hello']]), P(['let', sv('B$'), ['av', 'S$', 5]])]}
+WITNESSES = [W_D16, W_D15, W_D10A, W_D10B, W_D10C, W_D10D_ALIAS, W_D10D_OVERFLOW, W_RECURSION, W_INPUT, W_D10E]
 
 
 class C10(core.Check):
@@ -95,10 +99,10 @@ class C10(core.Check):
                'var_start, code_start and the memory size are read from the Session and passed to the model; '
                'the order of temp_values (a Python set) is modelled as insertion order, so addresses of individual '
                'strings are not compared, only lengths, contents, current, _temp and free memory']
-    PARTIAL = ('the statement-level invariant theorem covers LET, SWAP, LSET, RSET, ERASE, DIM, CLEAR, DEF FN, DEFtype but not MID$= '
-               'and console INPUT; the refinement to an abstract variable map is proved only in its storage half (no value '
-               'changes between assignments, stored pointers read back); compaction is stated per run of equal '
-               'addresses of the sorted root list')
+    PARTIAL = ('the statement-level invariant theorem covers every statement (LET, MID$=, LSET, RSET, SWAP, ERASE, DIM, '
+               'CLEAR, DEF FN, DEFtype) except console INPUT; the refinement to an abstract variable map is proved only '
+               'in its storage half (no value changes between assignments, stored pointers read back); compaction is '
+               'stated per run of equal addresses of the sorted root list')
     RULE = ('histories of 5..300 statements (LET with string expressions, MID$/LSET/RSET, SWAP, ERASE, DIM, CLEAR[,n], '
             'FRE, DEF FN + calls) over 5 string scalars, 2 string arrays and 7 numeric scalars, CLEAR ,n leaving 30 '
             'bytes .. default; each step is a program line started with GOTO or a direct-mode line; after each step '
@@ -138,6 +142,12 @@ class C10(core.Check):
                 # INPUT of new variables at nearly exhausted string space with garbage present
                 words = [''.join(rng.choice('abcdefgh0123') for _ in range(rng.choice([1, 2, 4, 8, 12])))
                          for _ in range(rng.choice([1, 2, 2, 3]))]
+                if i % 12 == 11:
+                    # ... into elements of arrays that do not exist yet (D10e): dimensioning them collects
+                    pool = [['av', 'S$', rng.choice([0, 3, 5, 10])], ['av', 'T$', rng.choice([0, 2, 10])], sv('X$')]
+                    rng.shuffle(pool)
+                    out.append(input_case(rng.randrange(60, 220), rng.randrange(0, 9), words, lvs=pool[:len(words)]))
+                    continue
                 out.append(input_case(rng.randrange(25, 110), rng.randrange(0, 5), words))
                 continue
             out.append(L.gen_history(rng, ns))
